@@ -399,16 +399,16 @@ func (s *Netceptor) DialContext(ctx context.Context, node string, service string
 	}
 	close(okChan)
 	go func() {
+		// The ephemeral socket under the connection is released when the QUIC connection
+		// has ended (closed by either side, or idle), not when the local side merely closes
+		// its stream - and it must be released then, or every dialled connection leaves its
+		// service name and goroutines behind.
 		select {
 		case <-qc.Context().Done():
-			_ = qs.Close()
-			_ = pc.Close()
 		case <-s.context.Done():
-			_ = qs.Close()
-			_ = pc.Close()
-		case <-doneChan:
-			return
 		}
+		_ = qs.Close()
+		_ = pc.Close()
 	}()
 	conn := &Conn{
 		s:        s,
